@@ -15,7 +15,8 @@ RULE = ('grid: constraint c in edge set x unsigned encodings of 1..9 bytes x '
         'threshold in {-1,0,1,2,60,2^31} x now around (c - thr) x t within +-2 '
         'of each boundary {c, now+thr}; plus random 63-bit quadruples and the '
         'three lock builders (+op_verify) at their boundaries. distinct = by '
-        '(kind, encoding, t, now, thr); non-trivial = t within 2 of a boundary')
+        '(kind, encoding, t, now, thr); non-trivial = t within 2 of a boundary'
+        ' [plus empty and inverted between-windows (widths 0, -1, -2, -5, -1000), locks under a globally configured threshold, builders with op_verify left out, 17 placement contexts]')
 ASSUMPTIONS = [
     'verifier clock pinned (time.time replaced before import, identity-checked)',
     'epoch_threshold >= 0 (negative is documented as malformed)',
